@@ -97,6 +97,69 @@ def observe(trees):
     return events
 
 
+def containers(events0):
+    """criteria combined by the API rather than by an operator: repeated filter() / where() / having() calls, filter(c1, c2),
+    Criterion.all / any.  The condition text found in the rendering must parse back to the conjunction (disjunction) of the parts."""
+    from pypika_tortoise import Query, Table
+    from pypika_tortoise import functions as fn
+    from pypika_tortoise import analytics as an
+    from pypika_tortoise.terms import Criterion
+
+    def F(n):
+        return {"k": "fld", "n": n}
+
+    def N(n):
+        return {"k": "num", "n": str(n)}
+
+    def B(op, l, r):
+        return {"k": "bin", "op": op, "l": l, "r": r}
+    eq = lambda a, v: B("=", F(a), N(v))  # noqa: E731
+    parts = [eq("a", 1), B("OR", eq("a", 1), eq("b", 2)), B("AND", eq("a", 1), eq("b", 2)), B("XOR", eq("a", 1), eq("b", 2)),
+             {"k": "not", "a": B("OR", eq("a", 1), eq("b", 2))}, {"k": "isnull", "a": F("c")},
+             {"k": "in", "a": F("c"), "items": [N(1), N(2)]}, {"k": "between", "a": F("c"), "lo": N(1), "hi": N(5)},
+             B("OR", B("AND", eq("a", 1), eq("b", 2)), eq("c", 3))]
+    t = Table("t")
+    x = t.x
+
+    def span_after(toks, word, stop_close=False):
+        k = next(i for i, tk in enumerate(toks) if tk["t"] == "word" and tk["v"] == word)
+        rest = toks[k + 1:]
+        if stop_close:
+            rest = rest[:-1]  # the bracket closing FILTER( ... )
+        return rest
+    sites = {
+        "filter.filter": (lambda a, b: fn.Sum(x).filter(a).filter(b), "AND", lambda toks: span_after(toks, "WHERE", True)),
+        "filter(a,b)": (lambda a, b: fn.Sum(x).filter(a, b), "AND", lambda toks: span_after(toks, "WHERE", True)),
+        "analytic.filter.filter": (lambda a, b: an.Sum(x).filter(a).filter(b), "AND", lambda toks: span_after(toks, "WHERE", True)),
+        "where.where": (lambda a, b: Query.from_(t).select(x).where(a).where(b), "AND", lambda toks: span_after(toks, "WHERE")),
+        "having.having": (lambda a, b: Query.from_(t).select(x).having(a).having(b), "AND", lambda toks: span_after(toks, "HAVING")),
+        "prewhere.prewhere": (lambda a, b: Query.from_(t).select(x).prewhere(a).prewhere(b), "AND", lambda toks: span_after(toks, "PREWHERE")),
+        "Criterion.all": (lambda a, b: Criterion.all([a, b]), "AND", lambda toks: toks),
+        "Criterion.any": (lambda a, b: Criterion.any([a, b]), "OR", lambda toks: toks),
+        "on_conflict.where.where": (lambda a, b: Query.into(t).insert(1).on_conflict("k").do_update("v", 2).where(a).where(b), "AND",
+                                    lambda toks: span_after(toks[next(i for i, tk in enumerate(toks) if tk["v"] == "SET"):], "WHERE")),
+    }
+    ctxs = core.contexts()
+    out = []
+    for sname, (mk, op, span) in sites.items():
+        for a in parts:
+            for b in parts:
+                obj = mk(build(a), build(b))
+                seen = {}
+                for d, ctx in ctxs.items():
+                    text = obj.get_sql(ctx)
+                    toks = lexer.slim(span(lexer.lex(text, core.lex_dialect(d))))
+                    key = json.dumps(toks)
+                    if key in seen:
+                        seen[key]["ctxs"].append(d)
+                    else:
+                        seen[key] = {"tree": B(op, a, b), "toks": toks, "ctxs": [d], "text": text, "site": sname}
+                out.extend(seen.values())
+    for i, e in enumerate(out):
+        e["tid"] = events0 + i
+    return out
+
+
 def judge(events, rep: core.Report):
     cfg = "INIT Init\nNEXT Next\n"
     slim = [{"tid": e["tid"], "tree": e["tree"], "toks": e["toks"]} for e in events]
@@ -119,6 +182,7 @@ def run(tier: str) -> int:
     trees += [t for t in grown if json.dumps(t, sort_keys=True) not in have]
     rep.extra["grown_trees"] = len(grown)
     events = observe(trees)
+    events += containers(len(events))
     verdicts = judge(events, rep)
     rep.traces = len(events)
     rep.evaluations = sum(len(e["ctxs"]) for e in events)
@@ -130,13 +194,18 @@ def run(tier: str) -> int:
             # alternatives: the edges where the intended design needs a bracket; a tree that fails
             # without any such edge lost or regrouped something else (signature: its root)
             sigs = sorted(list(x) for x in v["edges"]) or [["unbracketed-tree", e["tree"]["k"], e["tree"].get("op", "")]]
-            rep.discrepancy(sigs, {"tree": e["tree"], "text": e["text"], "ctxs": e["ctxs"], "why": v["why"]},
+            if e.get("site"):
+                # criteria combined by the API: the parts' own bracket needs are the same edges; the combination itself is the site
+                sigs = sigs + [["combined-by", e["site"], e["tree"]["l"]["k"] + e["tree"]["l"].get("op", ""), e["tree"]["r"]["k"] + e["tree"]["r"].get("op", "")]]
+            rep.discrepancy(sigs, {"tree": e["tree"], "text": e["text"], "ctxs": e["ctxs"], "why": v["why"], "site": e.get("site", "term")},
                             what=f"rendered text regroups or fuses operators ({v['why']})")
         elif len(rep.samples) < 4 and e["tree"]["k"] == "bin" and e["tree"]["l"]["k"] == "bin":
             rep.sample({"tree": e["tree"], "text": e["text"], "verdict": "parse-back ok"})
     rep.rule = ("TLC enumerates every expression tree of MC_Expr.Trees (mode edge: all parent/child/side triples; "
                 "full: both operands compound); each is built with the real operators, rendered in 6 contexts, lexed, "
-                "parsed by PT_Expr!Parse inside TLC and compared via Canon; distinct = distinct trees")
+                "parsed by PT_Expr!Parse inside TLC and compared via Canon; distinct = distinct trees; plus 9 criteria x 9 criteria combined by 9 API "
+                "constructs (repeated filter / where / having / prewhere / conflict-where calls, filter(a, b), Criterion.all / any), the condition text "
+                "parsed back against the conjunction / disjunction of the parts")
     rep.exhaustive = True
     rep.extra["trees"] = len(trees)
     rep.assumptions = ["standard-SQL precedence table of PT_Expr (App. D)", "Python lexer (cross-validated by PT_Lex in C05/C07)"]
